@@ -44,7 +44,7 @@ def replay(model, obligation):
 
         def set_keyspace_async(self, ks, cb):
             asked.append((self, cb))
-    lp._connections, lp._keyspace = [C('c0'), C('c1')], 'old'
+    lp._connections, lp._keyspace, lp._lock = [C('c0'), C('c1')], 'old', threading.RLock()
     lp.return_connection = lambda conn, **k: None
     seen = []
     lp._set_keyspace_for_all_conns('ks', lambda pool, errs: seen.append(list(errs)))
@@ -53,3 +53,87 @@ def replay(model, obligation):
     if len(seen) != 1 or len(seen[0]) != 1:
         fails.append('legacy pool, USE fails on the connection that reports last: the completion callback was given %r at the time of the call' % (seen,))
     return {'reproduced': bool(fails), 'detail': '; '.join(fails[:3]) or 'no disagreement'}
+
+
+def replay_replace(model, obligation):
+    """real HostConnection._replace with the session switching keyspace during the new connection's blocking USE"""
+    from contracts.native.c12 import Conn, mk_pool
+    fails = []
+    for when in ('while-opening', 'while-selecting'):
+        p = mk_pool(None, [])
+        p._keyspace, p._is_replacing, p.is_shutdown = 'ks_old', True, False
+        done = []
+
+        def switch():
+            if not done:
+                done.append('started')
+                p._set_keyspace_for_all_conns('ks_new', lambda pool, errs: done.append(list(errs)))
+
+        class NewConn(Conn):
+            keyspace = None
+
+            def set_keyspace_blocking(self, ks):
+                if when == 'while-selecting':
+                    switch()
+                self.keyspace = ks
+
+        def factory(ep, **kw):
+            if when == 'while-opening':
+                switch()
+            return NewConn('new')
+        p._session.cluster.connection_factory = factory
+        old = Conn('old')
+        old.is_defunct, old.orphaned_threshold_reached = True, False
+        p._replace(old)
+        c = p._connection
+        if c is None or c.keyspace != 'ks_new' or p._keyspace != 'ks_new' or done[1:] != [[]]:
+            fails.append('switch to ks_new %s: reported %r, the pool remembers %r, the published connection is on %r'
+                         % (when, done[1:], p._keyspace, getattr(c, 'keyspace', None)))
+    return {'reproduced': bool(fails), 'detail': '; '.join(fails[:2]) or 'the replacement connection follows the switch'}
+
+
+def replay_legacy_add(model, obligation):
+    """real HostConnectionPool._add_conn_if_under_max with the session switching keyspace during the new connection's blocking USE / on an empty pool"""
+    rf.load_cluster()
+    import cassandra.pool as pool_mod
+    from cassandra.pool import HostConnectionPool
+    from contracts.native.c12 import Conn
+    fails = []
+    for when, remembered in (('while-selecting', 'ks_old'), ('while-opening', 'ks_old'), ('never', None)):
+        lp = HostConnectionPool.__new__(HostConnectionPool)
+        done = []
+
+        def switch():
+            if not done:
+                done.append('started')
+                sess.keyspace = 'ks_new'
+                lp._set_keyspace_for_all_conns('ks_new', lambda pool, errs: done.append(list(errs)))
+
+        class NewConn(Conn):
+            keyspace = None
+
+            def set_keyspace_blocking(self, ks):
+                if when == 'while-selecting':
+                    switch()
+                self.keyspace = ks
+
+            def set_keyspace_async(self, ks, cb):
+                self.keyspace = ks
+                cb(self, None)
+
+        def factory(ep, **kw):
+            if when == 'while-opening':
+                switch()
+            return NewConn('new')
+        sess = types.SimpleNamespace(keyspace='ks_old', cluster=types.SimpleNamespace(connection_factory=factory, get_max_connections_per_host=lambda d: 8,
+                                                                                         signal_connection_failure=lambda *a, **k: False))
+        lp._session, lp.host, lp.host_distance, lp._lock, lp.is_shutdown = sess, types.SimpleNamespace(endpoint='ep'), 0, threading.RLock(), False
+        lp.open_count, lp._connections, lp._keyspace, lp._next_trash_allowed_at = 0, [], remembered, 0
+        lp._signal_available_conn = lambda: None
+        lp.return_connection = lambda conn, **k: None
+        lp._add_conn_if_under_max()
+        want = 'ks_old' if when == 'never' else 'ks_new'
+        got = [c.keyspace for c in lp._connections]
+        if got != [want]:
+            fails.append('legacy pool (remembered keyspace %r), switch %s: the published connection is on %r, the session on %r' % (remembered, when, got, sess.keyspace))
+    return {'reproduced': bool(fails), 'detail': '; '.join(fails[:2]) or 'the added connection follows the session keyspace'}
